@@ -6,6 +6,7 @@ import (
 	"strconv"
 	"strings"
 
+	bexpr "github.com/hashicorp/go-bexpr"
 	"github.com/hashicorp/go-bexpr/grammar"
 
 	"verifmc/eng"
@@ -18,7 +19,8 @@ func init() {
 		ID:          "C19",
 		Rule:        "E2: every parser-produced tree of the C16 spaces (all trees of depth<=2 over 3 leaves, depth 3 over 2 [thorough 3] leaves, every operator x selector spelling x literal incl. ones needing %q escapes) x indent in {\"\", \" \", TAB, 3 blanks, \"%s\", \"%\"} x start level in {0,1,3}: ExpressionDump output is byte-equal to an independent reference renderer written from the documented format (pre-order, one block per node, one indent level per tree level, operator names, ALL/ANY + binding, dotted vs slash-joined selector, quoted literal only for equality/membership), no panic, two renders identical; plus Selector.String on constructed selectors of each type with 0..3 parts. Distinct by construction; non-trivial = tree with >=2 nodes or a literal needing escapes.",
 		Assumptions: []string{"reference renderer reads the tree's fields only (never calls the String/Dump methods under test); %q is Go's strconv.Quote"},
-		Run:         runC19,
+		Run:          runC19,
+		NeedsOverlay: "add",
 	})
 }
 
@@ -90,6 +92,38 @@ func dumpSafe(e grammar.Expression, indent string, level int) (s string, pan str
 	return b.String(), ""
 }
 
+// c19ASTOf is set in the instrumented build (c19_verif.go); nil otherwise
+var c19ASTOf func(*bexpr.Evaluator) grammar.Expression
+
+// c19AfterUse: the tree of an Evaluator renders the same before and after the evaluator has been used (evaluated on lists, maps,
+// scalars, absent keys) - and the same as the tree of a fresh parse of the same text
+func c19AfterUse(c *eng.Ctx, src string, unit int) {
+	if c19ASTOf == nil {
+		return
+	}
+	ev, err := bexpr.CreateEvaluator(src)
+	if err != nil || ev == nil {
+		return
+	}
+	tree := c19ASTOf(ev)
+	if tree == nil {
+		return
+	}
+	before, p1 := dumpSafe(tree, "  ", 0)
+	for _, d := range c10Probes {
+		observe(ev, d)
+		c.R.Evaluations++
+	}
+	after, p2 := dumpSafe(c19ASTOf(ev), "  ", 0)
+	c.R.States++
+	c.R.Traces++
+	if p1 != "" || p2 != "" || before != after {
+		c.Violate(eng.Violation{Kind: "dump-changes-after-evaluation", Key: fmt.Sprintf("tree-of=%q", src), Coords: map[string]int{"u": unit}, Expected: before, Observed: after + p1 + p2})
+		return
+	}
+	c.Count("dump unchanged by evaluation")
+}
+
 func runC19(c *eng.Ctx) {
 	indents := []string{"", " ", "\t", "   ", "%s", "%"}
 	levels := []int{0, 1, 3}
@@ -104,6 +138,7 @@ func runC19(c *eng.Ctx) {
 		if !ok {
 			return
 		}
+		c19AfterUse(c, src, unit)
 		var rt any
 		if pmsg := catch(func() { rt = pegref.FromImpl(ast) }); pmsg != "" {
 			// a tree the parser returned that is not well formed (e.g. a binary match without a value): dumping it is what the property is
